@@ -29,9 +29,9 @@ Definition rejected_with (code : Z) (r : crec) : Prop :=
 Definition label_conn (l : label) : option nat :=
   match l with
   | LServeStart | LServeStop _ | LWorkerRetire _ | LAccept _ _ | LServeConn _ => None
-  | LRegister c | LRejectIP c | LOpenInc c | LGetChOk c | LGetChFail c | LRejectDec c | LRejectConc c
+  | LRegister c | LRejectIP c | LOpenInc c | LGetChOk c | LGetChFail c | LRejectDec c | LRejectConc c _
   | LTryAcquire c | LAcquireFail c | LStart c | LRequest c | LFinish c | LHijack c | LCleanupOpen c
-  | LCleanupConc c | LCloseAfter c | LWorkerRelease c | LReleaseConc c | LHijackDone c | LUserClose c => Some c
+  | LCleanupConc c | LCloseAfter c _ | LWorkerRelease c | LReleaseConc c | LHijackDone c _ | LUserClose c _ => Some c
   end.
 
 (* quiescence: every connection has been closed, or hijacked and released (all_terminal, Model/Limits.v);
